@@ -59,8 +59,8 @@ def main():
             fired = {p: v for p, v in res.items() if v[0]}
             exp = EXPECTED.get(os.path.basename(d), {})
             for p_ in list(fired):
-                if p_ in exp and fired[p_][0] == 1:
-                    print('%s: %s reports, as documented: %s' % (name, p_, exp[p_][:160]))
+                if p_ in exp and fired[p_][0] in (1, 2):
+                    print('%s: %s %s, as documented: %s' % (name, p_, 'reports' if fired[p_][0] == 1 else 'gives no verdict', exp[p_][:160]))
                     del fired[p_]
             if fired:
                 bad += 1
